@@ -834,13 +834,15 @@ theorem acct_handle {s : Sys} (self : Cid) (e : Env) (hv : Valid s) (hc : CurOK 
   | onKill poison =>
     simp only
     split
-    · exact dead
+    · have h1 := acct_upd_same self (fun x => if x.state = .killing then { x with restarting := none } else x) hv
+        (fun _ => by split <;> rfl)
+      exact h1.trans0 (acct_deadLetter e h1.ext.valid (hc.ext h1.ext).env.ids)
     · split
       · exact acct_doKill _ _ _ _ hv hc
       · split
         · have h1 := acct_upd_same self (fun x => { x with state := .killing }) hv (fun _ => rfl)
           exact h1.trans0 (acct_doKill _ _ _ _ h1.ext.valid (hc.ext h1.ext))
-        · exact Acct.refl hv
+        · exact acct_upd_same self _ hv (fun _ => rfl)
   | onKilled w =>
     simp only
     split
@@ -868,8 +870,10 @@ theorem acct_handle {s : Sys} (self : Cid) (e : Env) (hv : Valid s) (hc : CurOK 
     simp only
     split
     · exact dead
-    · have h1 := acct_upd_same self (fun x => { x with state := .killing, restarting := some poison }) hv (fun _ => rfl)
-      exact h1.trans0 (acct_doKill _ _ _ _ h1.ext.valid (hc.ext h1.ext))
+    · split
+      · have h1 := acct_upd_same self (fun x => { x with state := .killing, restarting := some poison }) hv (fun _ => rfl)
+        exact h1.trans0 (acct_doKill _ _ _ _ h1.ext.valid (hc.ext h1.ext))
+      · exact Acct.refl hv
   | watch =>
     simp only
     split
